@@ -228,9 +228,9 @@ type obsDecode struct {
 
 var tagPool = []string{"HEAD", "NAME", "DATE", "BIRT", "DEAT", "PLAC", "NOTE", "SEX", "SOUR", "INDI", "FAM",
 	"HUSB", "WIFE", "CHIL", "_UID", "_X", "1A", "RESI", "EVEN", "FAMS", "FAMC", "CONT", "TYPE", "x_y",
-	"husb", "Chil", "WIFe", "indi", "Fam", "fam", "name", "Date", "sex", "HUSBAND", "CHILD", "FAMILY", "INDIVIDUAL"}
+	"TRLR", "SEX", "husb", "Chil", "WIFe", "indi", "Fam", "fam", "name", "Date", "sex", "HUSBAND", "CHILD", "FAMILY", "INDIVIDUAL"}
 
-var valPool = []string{"", "", "x", "John /Smith/", "@P1@", "a@b", "  padded  ", "1 NAME y", "0", "3 Sep 1943",
+var valPool = []string{"", "", "x", "M", "M", "F", "U", "John /Smith/", "@P1@", "a@b", "  padded  ", "1 NAME y", "0", "3 Sep 1943",
 	"tab\there", "\tlead", "trail\t", "nb\u00a0", "\u0085nel", "wide\u3000", "\u2003em\u2003", "bad\xff", "\xc2", "\xe2\x80",
 	"@", "@@", "v w  x", "\xff", "\u00e9", "\u00a0x\u00a0", "\u2028", "\u205f", "@P1@ @P2@", "x\xc2\x85", "\xe2\x80\x80\x80", "\x85", "\xa0y", "\u1680z\u1680", "\v\fq\v"}
 
@@ -368,6 +368,9 @@ func init() {
 	for _, n := range []int{4080, 4089, 4090, 4096, 4100, 8200} {
 		adversarial = append(adversarial, "0 HEAD\n1 NOTE "+strings.Repeat("x", n)+"\n2 CONT y\n1 X z\n0 TRLR\n")
 	}
+	// the same SEX value several times, with and without subordinate lines; lines after a trailer record
+	adversarial = append(adversarial, "0 @I1@ INDI\n1 SEX M\n2 SOUR @S1@\n3 PAGE 4\n0 @I2@ INDI\n1 SEX M\n2 NOTE x\n1 SEX F\n0 @I3@ INDI\n1 SEX M\n1 SEX F\n2 NOTE y\n1 SEX U\n1 SEX U\n2 X z\n",
+		"0 HEAD\n0 TRLR\n0 @I1@ INDI\n1 NAME x\n", "0 TRLR\n1 X y\n0 A\n1 B\n", "0 HEAD\n0 @I1@ INDI\n0 TRLR\n\n0 HEAD\n0 @I2@ INDI\n1 SEX M\n0 TRLR\n")
 	// descents past level 99 and 100 (three-digit levels) and back: the normal form must survive re-encoding
 	deep := ""
 	for k := 0; k <= 103; k++ {
